@@ -149,6 +149,20 @@ func (r *Report) NumViolations() int { r.mu.Lock(); defer r.mu.Unlock(); return 
 func (r *Report) Merge(o *Report) {
 	r.mu.Lock()
 	defer r.mu.Unlock()
+	if r.Rule == "" {
+		r.Rule = o.Rule
+	}
+	for _, a := range o.Assumptions {
+		dup := false
+		for _, b := range r.Assumptions {
+			if a == b {
+				dup = true
+			}
+		}
+		if !dup {
+			r.Assumptions = append(r.Assumptions, a)
+		}
+	}
 	r.Evaluations += o.Evaluations
 	r.States += o.States
 	r.Transitions += o.Transitions
